@@ -35,6 +35,9 @@ type Dag struct {
 	Gate func(ctx context.Context, c cid.Cid)
 	// OnAdd, when non-nil, is called after every Add (with the lock released).
 	OnAdd func(c cid.Cid, n int)
+	// OnRemove, when non-nil, is called after every Remove.
+	OnRemove func(c cid.Cid)
+	Removes  []cid.Cid
 	// Corrupt is what a FaultCorrupt block returns.
 	Corrupt func(c cid.Cid) ipld.Node
 }
@@ -99,8 +102,23 @@ func (m *Dag) AddMany(ctx context.Context, ns []ipld.Node) error {
 	}
 	return nil
 }
-func (m *Dag) Remove(ctx context.Context, c cid.Cid) error       { panic("mockstore: Remove") }
-func (m *Dag) RemoveMany(ctx context.Context, c []cid.Cid) error { panic("mockstore: RemoveMany") }
+func (m *Dag) Remove(ctx context.Context, c cid.Cid) error {
+	m.mu.Lock()
+	delete(m.Blocks, c)
+	m.Removes = append(m.Removes, c)
+	cb := m.OnRemove
+	m.mu.Unlock()
+	if cb != nil {
+		cb(c)
+	}
+	return nil
+}
+func (m *Dag) RemoveMany(ctx context.Context, cs []cid.Cid) error {
+	for _, c := range cs {
+		_ = m.Remove(ctx, c)
+	}
+	return nil
+}
 func (m *Dag) Pinning() ipld.NodeAdder                           { return m }
 
 // Snapshot returns a copy of the block map restricted to the first n writes.
